@@ -21,6 +21,7 @@ macro "xrl_close" : tactic =>
     | omega
     | (apply fails_mk <;> decide)
     | (apply fails_mk' <;> decide)
+    | (refine ⟨_, ‹_ ≠ ""›, ‹_ ≤ 5›, ?_⟩ <;> (first | rfl | norm_num))
     | rfl
     | linarith
     | grind
